@@ -13,10 +13,14 @@ LEVEL = "model_checking"
 SPECDIR = os.path.join(common.SPEC, "shared")
 
 
-def drive_all(rep, flavour, nproc, rounds, fits, label):
+KNOWN_NEAR_TIES = "fit:gboost:near-tie-configurations(dtree|several-table-kinds|table-alone|weighted-bootstraps):schedule-dependent-model"
+
+
+def drive_all(rep, flavour, nproc, rounds, fits, label, extra_env=None, fit_signature=None):
     work = common.workdir("C18" + label)
     exe = common.build_harness("shared_driver", flavour)["shared_driver"]
     env = {"TSAN_OPTIONS": "halt_on_error=1 exitcode=66 report_signal_unsafe=0"}
+    env.update(extra_env or {})
 
     def drive(i):
         out = os.path.join(work, "shared_%d.ndjson" % i)
@@ -42,7 +46,8 @@ def drive_all(rep, flavour, nproc, rounds, fits, label):
             if rj["event"].get("e") == "Fit":
                 rep.violation("the same fit with different pool sizes / schedules gives a different model (replay: shared_driver <out> fit %s %s 30): %s"
                               % (rj["event"].get("pseed"), "gboost" if rj["event"].get("model") == "gboost" else rj["event"].get("linear"),
-                                 {k: v for k, v in rj["event"].items() if k not in ("model0", "modelv")}), payload=rj["event"])
+                                 {k: v for k, v in rj["event"].items() if k not in ("model0", "modelv")}), payload=rj["event"],
+                              signature=fit_signature if rj["event"].get("model") == "gboost" else None)
             else:
                 rep.violation("concurrent use of a shared %s differs from the solo call: %s" % (rj["execution"][0].get("what"), rj["event"]),
                               payload={"what": rj["execution"][0], "event": rj["event"]})
@@ -78,17 +83,40 @@ def run(rep, tier):
     rep.sample([x for x in results[0][6] if x["e"] == "Fit"][0])
     rep.add(traces_validated_against_impl=total, evaluations=nconc + nfit, distinct_nontrivial=nconc, concurrent_calls=nconc, fit_comparisons=nfit,
             shared_object_kinds=sorted(whats),
-            rule="one concurrent call = (shared instance, task, thread) with 2..8 threads each running all tasks in its own order with seeded "
-                 "yields; shared instances: 22 deterministic solver types (minimize with per-call function clones), all 17 losses "
-                 "(value/error/vgrad on shared tensors), a dataset (flatten/select/targets/iterator with per-thread buffers), fitted gboost and "
-                 "linear models (predict); fits: gboost / 4 linear regularisers with pools capped at 1/2/16 and dataset pools 1/3/16")
+            rule="one concurrent call = (shared instance, task, thread) with 2..16 threads each running all tasks in its own order with seeded "
+                 "yields; shared instances: the deterministic solver types (minimize with per-call function clones; the line-search solvers "
+                 "with their default and with every other lsearch0 x lsearchk prototype), all 17 losses (value/error/vgrad on shared tensors), "
+                 "datasets (flatten/targets, select of the four feature kinds, select_iterator_t loops over all / listed / single features, "
+                 "targets_iterator_t and flatten_iterator_t loops in the four scaling modes, cached or not - per-thread buffers and iterators), "
+                 "fitted gboost and linear models (predict; fixed and random configurations); fits: gboost (random pools of 1..4 of 7 "
+                 "weak learners - no decision trees, one kind of table per pool and never alone -, sub-sampling off / subsample / bootstrap with a fixed seed, shrinkage off/global/local, gboost/tboost scaling) / 4 linear "
+                 "regularisers (4 scaling modes, batches), k-fold or random splits of 2..5 folds, both tuners, with pools capped at 1/2/16 "
+                 "and dataset pools 1/3/16; a quarter of the fits in the fixed configuration of the first version")
+    # the recorded finding (known_findings.json): gboost fits whose greedy choices hinge on exact ties that rounding breaks - decision trees
+    # in the pool, several kinds of tables, a table alone, the weighted bootstraps - are not schedule-independent; they are run apart (the
+    # driver's environment switches put them back) so that a different model there is reported as that finding, anywhere else as a violation
+    t1 = drive_all(rep, "rel", 2, 0, 6 if tier == "quick" else 24, "ties",
+                   extra_env={"VERIF_C18_DTREE": "1", "VERIF_C18_TABLES": "1", "VERIF_C18_ALONE": "1", "VERIF_C18_WEIGHTED": "1"},
+                   fit_signature=KNOWN_NEAR_TIES)
+    rep.add(near_tie_fit_comparisons=t1[2])
     if tier == "thorough":
         t2 = drive_all(rep, "tsan", 4, 1, 2, "tsan")
         rep.add(tsan_concurrent_calls=t2[1])
     rep.assume("bit-identity is observed per run (hash of the result bytes), not proved; absence of data races in code the model does not describe "
                "is what the ThreadSanitizer flavour (thorough) observes",
                "fit invariance uses lbfgs for smooth objectives and fpba1 for lasso / elastic net (osga and mae+lbfgs amplify last-bit "
-               "re-association differences and are left out, see DESIGN.md §3 C18)")
+               "re-association differences and are left out, see DESIGN.md §3 C18); for the same reason lasso / elastic net keep "
+               "linear::batch >= #samples (fpba1 on an objective summed in per-thread parts: per-trial tuning values differ by up to 5e-4 "
+               "relative between pool sizes, the final predictions stayed within 1e-5)",
+               "fit invariance leaves decision trees out of the weak learner pools (they are part of the shared-predict models): in small "
+               "tree nodes different features induce the same partition, equal scores in exact arithmetic that differ by rounding only, so "
+               "the chosen feature follows the last bits of the gradients and these the order of the per-thread partial sums; likewise at "
+               "most one kind of look-up table per pool (dense / k-best / k-split / discrete-step tables coincide for some k: tied scores "
+               "computed by different formulas, the winner decided by rounding) and never a table alone (boosting converges on the "
+               "categorical features, the optimal scale of the next weak learner is an exact zero and the computed +-1e-16 decides "
+               "between `scaling fails` and another round); the loss / gradient weighted bootstraps are left out as well (schedule-dependent "
+               "models observed with them, e.g. shared_driver <out> fit 16035767261665122839 gboost 6 with VERIF_C18_WEIGHTED=1). The "
+               "environment switches VERIF_C18_DTREE / VERIF_C18_TABLES / VERIF_C18_ALONE / VERIF_C18_WEIGHTED of the driver put these configurations back")
 
 
 def replay(rep, path):
